@@ -266,6 +266,7 @@ func overlapInit(bs []InitBlock) bool {
 }
 
 func (g *gen) initBlocks() {
+	g.t.Shared = g.r.Bool()
 	n := g.r.Weighted([]int{2, 3, 3, 2, 1, 1, 1})
 	for i := 0; i < n; i++ {
 		l := g.r.Range(0, 12)
@@ -289,6 +290,20 @@ func (g *gen) initBlocks() {
 	}
 }
 
+// prevStore picks an earlier store of this history that carries a value.
+func (g *gen) prevStore() *Op {
+	var c []int
+	for i := range g.stored {
+		if g.stored[i].K == "store" && g.stored[i].FromLoad == 0 {
+			c = append(c, i)
+		}
+	}
+	if len(c) == 0 {
+		return nil
+	}
+	return &g.stored[c[g.r.Intn(len(c))]]
+}
+
 func (g *gen) memOps(n int) {
 	for i := 0; i < n; i++ {
 		switch g.r.Weighted([]int{45, 30, 15, 10}) {
@@ -299,6 +314,33 @@ func (g *gen) memOps(n int) {
 				a, w = g.readRange() // overlapping writes are the norm
 			} else {
 				a, w = g.addr(), g.width()
+			}
+			if prev := g.prevStore(); prev != nil && g.r.Chance(1, 6) {
+				// the same value once more: with another width, at a shifted
+				// address, or exactly over what an intervening write left of it
+				switch g.r.Intn(3) {
+				case 0:
+					op := Op{K: "store", Addr: prev.Addr, W: g.width(), V: prev.V}
+					g.t.Ops = append(g.t.Ops, op)
+					g.stored = append(g.stored, op)
+				case 1:
+					op := Op{K: "store", Addr: prev.Addr + uint64(g.r.Intn(4)), W: prev.W, V: prev.V}
+					g.t.Ops = append(g.t.Ops, op)
+					g.stored = append(g.stored, op)
+				default:
+					if prev.W > 1 {
+						k := g.r.Range(1, prev.W-1)
+						head := Op{K: "store", Addr: prev.Addr, W: k, V: g.value(k)}
+						again := Op{K: "store", Addr: prev.Addr + uint64(k), W: prev.W - k, V: prev.V}
+						if g.r.Chance(1, 3) { // the tail is overwritten instead
+							head = Op{K: "store", Addr: prev.Addr + uint64(k), W: prev.W - k, V: g.value(prev.W - k)}
+							again = Op{K: "store", Addr: prev.Addr, W: k, V: prev.V}
+						}
+						g.t.Ops = append(g.t.Ops, head, again)
+						g.stored = append(g.stored, head, again)
+					}
+				}
+				continue
 			}
 			op := Op{K: "store", Addr: a, W: w, V: g.value(w)}
 			if g.loads > 0 && g.r.Chance(1, 7) {
@@ -335,7 +377,18 @@ func (g *gen) regOps(n int) {
 		}
 		switch g.r.Weighted([]int{30, 30, 12, 10, 6, 12}) {
 		case 0:
-			g.t.Ops = append(g.t.Ops, Op{K: "rstore", Key: key, W: w, V: g.value(w)})
+			op := Op{K: "rstore", Key: key, W: w, V: g.value(w)}
+			if len(g.stored) > 0 && g.r.Chance(1, 5) {
+				// the same value once more, with another width, mostly into the
+				// register that already holds it
+				prev := g.stored[g.r.Intn(len(g.stored))]
+				op.V = prev.V
+				if g.r.Chance(3, 4) {
+					op.Key = prev.Key
+				}
+			}
+			g.stored = append(g.stored, op)
+			g.t.Ops = append(g.t.Ops, op)
 		case 1:
 			g.t.Ops = append(g.t.Ops, Op{K: "rload", Key: key, W: w})
 		case 2:
